@@ -2477,6 +2477,20 @@ impl<'a> Model<'a> {
         height: i32,
         value: &str,
     ) -> Result<(), String> {
+        // The whole range must be inside the grid and have at least one cell: check it before
+        // the anchor is written, so that a failing call leaves nothing behind
+        if width < 1 || height < 1 {
+            return Err("An array formula needs a range of at least one cell".to_string());
+        }
+        let last_row = row.checked_add(height - 1);
+        let last_column = column.checked_add(width - 1);
+        if !is_valid_row(row)
+            || !is_valid_column_number(column)
+            || !last_row.is_some_and(is_valid_row)
+            || !last_column.is_some_and(is_valid_column_number)
+        {
+            return Err("Incorrect row or column".to_string());
+        }
         self.prepare_cell_for_user_input(sheet, row, column)?;
         // If value starts with "'" then we force the style to be quote_prefix
         let style_index = self.get_cell_style_index(sheet, row, column)?;
